@@ -345,7 +345,8 @@ pub fn set_emissions_ix(
 /// valid adaptive-fee constants over the whole valid region (boundary biased); returns (fee tier index, constants)
 pub fn pick_adaptive_constants(rng: &mut crate::rng::Rng, spacing: u16, salt: u16) -> (u16, decode::AfConstants) {
     let tier_index = 1024 + salt + if spacing == 1024 + salt { 7 } else { 0 };
-    let filter = *rng.pick(&[1u16, 2, 10, 30, 60, 600]);
+    // (filter periods of half an hour and more let a short unbroken chain of major swaps outlive the one-hour reference age)
+    let filter = *rng.pick(&[1u16, 2, 10, 30, 60, 600, 1800, 3000, 3601]);
     let decay = match rng.below(4) {
         0 => filter + 1,
         1 => filter.saturating_add(60).max(filter + 1),
